@@ -2234,6 +2234,46 @@ def bufreader_buffer(ctx):
     return Ref(st.alloc(strm.inp.slice(strm.pos, k, 'slice')), ())
 
 
+@contract(r' as (?:tokio::io::)?AsyncReadExt>::read_buf::<.*>$')
+def tokio_read_buf(ctx):
+    return Future('read_buf', [ctx.args[0], ctx.args[1]])
+
+
+@awaiter('read_buf')
+def _await_read_buf(ctx, fut):
+    """read_buf(&mut BytesMut): like read(), but what arrives is appended behind what the buffer holds; Ok(0) at end of stream"""
+    ex, st = ctx.ex, ctx.st
+    strm, loc = stream_of(ex, st, fut.args[0])
+    outs = []
+    _maybe_io_error(ex, st, outs, 'read_buf')
+    rem = simp(strm.inp.len - strm.pos)
+    budget = getattr(ex, 'read_budget', None)
+    nreads = st.env.get('nreads', 0)
+    t, f = ex.branch(st, rem != BV(0, 64))
+    if t:
+        s2 = st.fork() if f else st
+        ex.assume(s2, rem != BV(0, 64))
+        if budget is not None and nreads + 1 >= budget:
+            n = rem             # the last piece the segmentation budget allows: everything that is left
+        else:
+            n = z3.BitVec(fresh_name('nread'), 64)
+            ex.assume(s2, z3.And(z3.UGE(n, BV(1, 64)), z3.ULE(n, rem)))
+        s2.env['nreads'] = nreads + 1
+        s2.env.setdefault('read_sizes', [])
+        s2.env['read_sizes'] = list(s2.env['read_sizes']) + [n]
+        d2 = BufLoc(ex, s2, fut.args[1])
+        d2.set(d2.val.concat(strm.inp.slice(strm.pos, n, d2.val.kind), d2.val.kind))
+        ex.store(s2, loc[0], loc[1], strm.replace(pos=simp(strm.pos + n)))
+        s2.trace.append(('read', strm.name, n))
+        outs.append((s2, mk_result(ex, ok=Int(n, 64, False))))
+    if f:
+        if t:
+            ex.assume(st, rem == BV(0, 64))
+        st.trace.append(('eof', strm.name))
+        outs.append((st, mk_result(ex, ok=Int(BV(0, 64), 64, False))))
+    return outs
+
+
 @contract(r' as (?:tokio::io::)?AsyncBufReadExt>::fill_buf$')
 def tokio_fill_buf(ctx):
     return Future('fill_buf', [ctx.args[0]])
